@@ -140,7 +140,7 @@ func (o *histogramOperator) processInputSeries(vectors []model.StepVector) ([]mo
 			}
 			// If there is only bucket or if we are after how many
 			// scalar points we have then it needs to be NaN.
-			if len(stepBuckets) == 1 || stepIndex >= len(o.scalarPoints) {
+			if stepIndex >= len(o.scalarPoints) {
 				step.SampleIDs = append(step.SampleIDs, uint64(i))
 				step.Samples = append(step.Samples, math.NaN())
 				continue
